@@ -4,6 +4,7 @@
 #include "exec_common.h"
 #include "ops_c19.c"
 #include "ops_c20.c"
+#include "ops_c13.c"
 
 int main(void)
 {
@@ -15,6 +16,7 @@ int main(void)
     if (t.n == 0) { printf("R skip\n"); continue; }
     if (!done) done = dispatch_c19(&t);
     if (!done) done = dispatch_c20(&t);
+    if (!done) done = dispatch_c13(&t);
     if (!done) printf("R skip\n");
     fflush(stdout);
   }
